@@ -83,6 +83,23 @@ TVlq ==
      IN /\ (bad = {} \/ PrintT(<<"ITEM", ToJson([cls |-> "vlq", what |-> "the emitted VLQ digits do not decode to the encoded integer", l |-> l, id |-> e.id,
                                                   more |-> [n |-> e.nums[CHOOSE i \in bad : TRUE]]])>>))
         /\ Stat([l |-> l, vlq |-> Len(e.nums)])
+(* Integers beyond TLC's 32 bits (the isize boundaries): judged digit by digit, without ever forming the number.  A VLQ is a sequence   *)
+(* of base64 digits whose values g1..gk (0..63) satisfy: bit 5 (32) is set on all but the last; bit 0 of g1 is the sign; bits 1..4 of   *)
+(* g1 are the low 4 bits of the magnitude; the low 5 bits of g2..gk are the remaining magnitude in base 32, least significant first.   *)
+TVlqBig ==
+  /\ IsEvent("VlqBig")
+  /\ LET e == Rec[l]
+         Ok(it) == LET g == [k \in DOMAIN it.digits |-> B64(it.digits[k])] n == Len(g) IN
+                   /\ ~it.panicked /\ n >= 1 /\ \A k \in 1..n : g[k] >= 0
+                   /\ \A k \in 1..n : (g[k] \div 32 = 1) <=> (k < n)
+                   /\ (g[1] % 2 = 1) <=> (it.neg /\ (it.low4 # 0 \/ it.groups # <<>>))          \* "-0" does not occur for a non-zero number
+                   /\ (g[1] % 32) \div 2 = it.low4
+                   /\ n - 1 = Len(it.groups)
+                   /\ \A k \in 2..n : g[k] % 32 = it.groups[k - 1]
+         bad == {i \in DOMAIN e.items : ~Ok(e.items[i])}
+     IN /\ (bad = {} \/ PrintT(<<"ITEM", ToJson([cls |-> "vlq", what |-> "the emitted VLQ digits do not decode to the encoded integer", l |-> l, id |-> e.id,
+                                                  more |-> [n |-> e.items[CHOOSE i \in bad : TRUE].text]])>>))
+        /\ Stat([l |-> l, vlq |-> Len(e.items)])
 (* "Writer" events: a call sequence generated by TLC from MappingWriterAlgo.tla, replayed into the real SourceWriter.  Judged by   *)
 (* what the property needs, not by the algorithm model: the mappings decode; the decoded segments are, in order, the entries the   *)
 (* calls ask for (file, original line / column, name; a named node also closes its range just past its name); a named opening       *)
@@ -130,7 +147,7 @@ TWriter ==
                                                        [calls |-> e.calls, first |-> CHOOSE i \in bad : TRUE, decoded |-> got, expected |-> want, starts |-> e.out.starts])}))
                      /\ Stat([l |-> l, writer |-> "judged", entries |-> Len(want)])
 Init == l = 1
-Next == TGen \/ TVlq \/ TWriter
+Next == TGen \/ TVlq \/ TVlqBig \/ TWriter
 Spec == Init /\ [][Next]_l
 Done == PrintT(<<"DONE", ToJson([consumed |-> TLCGet("stats").diameter - 1])>>)
 =============================================================================
